@@ -68,6 +68,21 @@ func (ctx Ctx) Decls(fs ...NamedFile) (imports coq.ImportDecls, decls []coq.Decl
 	nameDecls := make(map[string]declId)
 	generated := make(map[declId]bool)
 
+	// declError builds the error for a whole declaration
+	declError := func(id declId, format string, args ...interface{}) (err error) {
+		defer func() {
+			if r := recover(); r != nil {
+				gooseErr, ok := r.(gooseError)
+				if !ok {
+					panic(r)
+				}
+				err = gooseErr.err
+			}
+		}()
+		ctx.unsupported(fs[id.fileIdx].Ast.Decls[id.declIdx], format, args...)
+		return nil
+	}
+
 	for fi, f := range fs {
 		for di, d := range f.Ast.Decls {
 			ctx.dep = &depTracker{}
@@ -80,10 +95,25 @@ func (ctx Ctx) Decls(fs ...NamedFile) (imports coq.ImportDecls, decls []coq.Decl
 
 			// fmt.Printf("%s depends on %s\n", ctx.dep.names, ctx.dep.deps)
 
+			// two Go declarations can map to one Coq name (method bar of Foo
+			// and a function Foo__bar): the second definition would shadow
+			// the first
+			if err == nil {
+				for _, n := range ctx.dep.names {
+					if prev, dup := nameDecls[n]; dup && prev != id && n != "_" {
+						errs = append(errs, declError(id,
+							"the Coq name %s is already defined by another declaration", n))
+						newDecls = nil
+						break
+					}
+				}
+			}
 			declGroups[id] = newDecls
 			declDeps[id] = ctx.dep.deps
 			for _, n := range ctx.dep.names {
-				nameDecls[n] = id
+				if _, dup := nameDecls[n]; !dup {
+					nameDecls[n] = id
+				}
 			}
 		}
 	}
@@ -95,19 +125,8 @@ func (ctx Ctx) Decls(fs ...NamedFile) (imports coq.ImportDecls, decls []coq.Decl
 	// dependency on one of them closes a cycle, and no order of definitions
 	// puts every name before its uses
 	inProgress := make(map[declId]bool)
-	cycleError := func(id declId, dep string) (err error) {
-		defer func() {
-			if r := recover(); r != nil {
-				gooseErr, ok := r.(gooseError)
-				if !ok {
-					panic(r)
-				}
-				err = gooseErr.err
-			}
-		}()
-		ctx.unsupported(fs[id.fileIdx].Ast.Decls[id.declIdx],
-			"mutually recursive declarations (this one and %s)", dep)
-		return nil
+	cycleError := func(id declId, dep string) error {
+		return declError(id, "mutually recursive declarations (this one and %s)", dep)
 	}
 
 	processDecl = func(id declId, ident string) {
